@@ -142,6 +142,39 @@ fn judge(v: &[Trans], r: &VecResult, total: u64) -> Result<(), String> {
     Ok(())
 }
 
+/// Serde mirror of `Machine` / `State` (same field order and types), used to produce a machine string
+/// *without* going through `State::new`: stored strings may come from any version of the library, and a state
+/// obtained by parsing must sample exactly like one built through the constructor.
+#[derive(serde::Serialize)]
+struct StateMirror {
+    action: Option<Action>,
+    counter: (Option<maybenot::counter::Counter>, Option<maybenot::counter::Counter>),
+    transitions: [Option<Vec<Trans>>; 13],
+}
+#[derive(serde::Serialize)]
+struct MachineMirror {
+    allowed_padding_packets: u64,
+    max_padding_frac: f64,
+    allowed_blocked_microsec: u64,
+    max_blocking_frac: f64,
+    states: Vec<StateMirror>,
+}
+/// The state of `state_of(group)` as obtained by parsing a string that encodes the vectors in the given order.
+fn parsed_state_of(group: &[Vec<Trans>]) -> Result<State, String> {
+    use std::str::FromStr;
+    const NONE: Option<Vec<Trans>> = None;
+    let mut tr = [NONE; 13];
+    for (i, v) in group.iter().enumerate().take(13) {
+        tr[i] = Some(v.clone());
+    }
+    let empty = || StateMirror { action: None, counter: (None, None), transitions: [NONE; 13] };
+    let m = MachineMirror { allowed_padding_packets: 0, max_padding_frac: 0.0, allowed_blocked_microsec: 0, max_blocking_frac: 0.0, states: vec![StateMirror { action: None, counter: (None, None), transitions: tr }, empty(), empty(), empty()] };
+    let bin = bincode::Options::serialize(bincode::DefaultOptions::new(), &m).map_err(|e| e.to_string())?;
+    let s = super::c11::string_of_bin(&bin);
+    let parsed = maybenot::Machine::from_str(&s).map_err(|e| format!("a machine string encoding validated vectors does not parse: {e}"))?;
+    Ok(parsed.states[0].clone())
+}
+
 /// A state whose 13 events carry 13 different vectors (vector i on event i), or none.
 fn state_of(group: &[Vec<Trans>]) -> State {
     let mut t: EnumMap<Event, Vec<Trans>> = enum_map! { _ => vec![] };
@@ -239,10 +272,29 @@ pub fn worker(ctx: &WorkerCtx) -> WorkerOut {
                             c.set(ti, gi as u64);
                         }
                         let st = state_of(&groups[gi]);
+                        // the same state obtained by parsing a machine string (every other group: it doubles the work)
+                        let parsed = if gi % 2 == 0 { Some(parsed_state_of(&groups[gi])) } else { None };
                         for (ei, e) in Event::iter().enumerate() {
                             let targets: Vec<usize> = groups[gi].get(ei).map(|v| v.iter().map(|t| t.0).collect()).unwrap_or_default();
                             let r = enumerate(&st, *e, &targets, 0, OUTCOMES);
                             calls += OUTCOMES;
+                            match &parsed {
+                                Some(Ok(ps)) => {
+                                    if let Some(v) = groups[gi].get(ei) {
+                                        let rp = enumerate(ps, *e, &targets, 0, OUTCOMES);
+                                        calls += OUTCOMES;
+                                        if let Err(m) = judge(v, &rp, OUTCOMES) {
+                                            fails.push((gi, ei, format!("state obtained through Machine::from_str: {m}")));
+                                        }
+                                    }
+                                }
+                                Some(Err(m)) => {
+                                    if ei == 0 {
+                                        fails.push((gi, ei, m.clone()));
+                                    }
+                                }
+                                None => {}
+                            }
                             crate::supervise::beat();
                             match groups[gi].get(ei) {
                                 Some(v) => {
@@ -349,6 +401,60 @@ pub fn worker(ctx: &WorkerCtx) -> WorkerOut {
             }
         }
     }
+    // "a transition declared with probability 1 is always taken", through the framework, for every event kind
+    // in every context of up to two preceding events (repeated BlockingBegin, unpaired BlockingEnd, foreign ids ...)
+    let mut p1_calls = 0u64;
+    if ctx.only_unit.is_none() && reported.is_empty() {
+        use maybenot::event::TriggerEvent as T;
+        let own = mid(0);
+        let probes_ev: Vec<(Event, T)> = vec![
+            (Event::NormalRecv, T::NormalRecv), (Event::PaddingRecv, T::PaddingRecv), (Event::TunnelRecv, T::TunnelRecv), (Event::NormalSent, T::NormalSent), (Event::TunnelSent, T::TunnelSent),
+            (Event::BlockingEnd, T::BlockingEnd), (Event::BlockingBegin, T::BlockingBegin { machine: own }), (Event::BlockingBegin, T::BlockingBegin { machine: mid(1) }), (Event::BlockingBegin, T::BlockingBegin { machine: mid(7) }),
+            (Event::PaddingSent, T::PaddingSent { machine: own }), (Event::TimerBegin, T::TimerBegin { machine: own }), (Event::TimerEnd, T::TimerEnd { machine: own }),
+        ];
+        let ctx_events = all_single_events(2, true);
+        'outer: for (ev, trig) in &probes_ev {
+            // a chain 0 -> 1 -> 2 -> 3 on the probed event: reported three times, with any other events in between,
+            // the machine must arrive in state 3 (also when the same event is repeated back to back)
+            let step = |to: usize| -> EnumMap<Event, Vec<Trans>> {
+                let mut t: EnumMap<Event, Vec<Trans>> = enum_map! { _ => vec![] };
+                t[*ev] = vec![Trans(to, 1.0)];
+                t
+            };
+            let m = mk((1_000_000, 1.0, 1_000_000_000, 1.0), vec![st_map(step(1), None, (None, None)), st_map(step(2), None, (None, None)), st_map(step(3), None, (None, None)), st_map(enum_map! { _ => vec![] }, Some(fam::pad(false, false, 21.0, None)), (None, None))]);
+            let ms = Ms(Arc::new(vec![m, fam::noop()]));
+            // in-between events: everything that is not itself a delivery of the probed kind to machine 0
+            let delivers = |e: &T| -> bool {
+                match (e, ev) {
+                    (T::BlockingBegin { .. }, Event::BlockingBegin) => true,
+                    (T::PaddingSent { machine }, Event::PaddingSent) | (T::TimerBegin { machine }, Event::TimerBegin) | (T::TimerEnd { machine }, Event::TimerEnd) => machine.into_raw() == 0,
+                    (T::NormalRecv, Event::NormalRecv) | (T::PaddingRecv, Event::PaddingRecv) | (T::TunnelRecv, Event::TunnelRecv) | (T::NormalSent, Event::NormalSent) | (T::TunnelSent, Event::TunnelSent) | (T::BlockingEnd, Event::BlockingEnd) => true,
+                    _ => false,
+                }
+            };
+            let mut between: Vec<Option<T>> = vec![None];
+            between.extend(ctx_events.iter().filter(|e| !delivers(e)).cloned().map(Some));
+            for x in &between {
+                for y in &between {
+                    let mut seq: Vec<T> = vec![trig.clone()];
+                    seq.extend(x.clone());
+                    seq.push(trig.clone());
+                    seq.extend(y.clone());
+                    seq.push(trig.clone());
+                    let mut f: Framework<Ms, OneWord, VT> = Framework::new(ms.clone(), 0.0, 0.0, VT(0), OneWord(0x7FFF_FFFF)).expect("probe");
+                    let mut last: Vec<Act> = vec![];
+                    for e in &seq {
+                        last = f.trigger_events(std::slice::from_ref(e), VT(0)).map(conv).collect();
+                        p1_calls += 1;
+                    }
+                    if f.verif_snapshot().machines[0].0 != 3 || !last.iter().any(|a| matches!(a, Act::Pad { m: 0, timeout: 21, .. })) {
+                        reported.push(Rep { signature: format!("C06:p1-through-framework:{:?}", ev), summary: format!("transitions declared with probability 1 on {:?} were not all taken for the reports {:?} (machine in state {} instead of 3)", ev, batch_to_strings(&seq), f.verif_snapshot().machines[0].0), replay: json!({"property": "C06", "engine": "E2", "message": "p=1 transition not taken through the framework", "sequence": batch_to_strings(&seq)}) });
+                        break 'outer;
+                    }
+                }
+            }
+        }
+    }
     // thorough: the full 2^32 word space for two vectors confirms the 512-to-1 word -> value map
     let mut full_words = 0u64;
     if !q && ctx.only_unit.is_none() && reported.is_empty() {
@@ -414,7 +520,7 @@ pub fn worker(ctx: &WorkerCtx) -> WorkerOut {
         "evaluations": calls + probe_calls, "distinct_nontrivial": nontriv,
         "rule": "for every validated probability vector of the corpus (placed on one of the 13 events of a state whose other events carry other vectors) every one of the 2^23 distinct values of the uniform draw (words k<<9) goes through the real State::sample_state; exact outcome counts compared with p_i*2^23 (tolerance 2 + i/2 outcomes for the i-th target, 1 + len/4 for 'no transition': f32 accumulation plus the boundary convention). distinct_nontrivial = vectors with more than one target or a probability below 1. Framework probes: every word through trigger_events, observable effect vs sampled target",
         "exhaustive": ctx.only_unit.is_none(),
-        "probability_vectors": nvec, "draw_outcomes_per_vector": OUTCOMES, "states_with_13_different_vectors": groups.len(), "framework_probe_vectors": probes.len(), "framework_probe_calls": probe_calls, "words_enumerated_over_the_full_2^32_space": full_words,
+        "probability_vectors": nvec, "draw_outcomes_per_vector": OUTCOMES, "states_with_13_different_vectors": groups.len(), "framework_probe_vectors": probes.len(), "framework_probe_calls": probe_calls, "probability_one_through_framework_calls_in_contexts": p1_calls, "words_enumerated_over_the_full_2^32_space": full_words,
         "wall_s": t0.elapsed().as_secs_f64(),
     });
     let vacuous = if nvec < 50 && ctx.only_unit.is_none() && reported.is_empty() { Some(format!("only {nvec} vectors")) } else { None };
